@@ -738,6 +738,28 @@ func (g *Gen) evalCall(ctx *specCtx, x *ECall) Val {
 			g.typeIDs[s.S] = id
 		}
 		return BoolV{eq(iv.Tag, fmt.Sprint(id))}
+	case "as":
+		// as(x, "T"): the dynamic value of interface x read as *T (T a struct type of the package under contract).
+		// When the dynamic value is statically known it is used; otherwise an unconstrained pointer stands for it
+		// (the clause has to guard its use, e.g. by result1 == nil ==> ...).
+		if len(x.Args) != 2 {
+			g.unsupported("as(x, \"Type\")")
+		}
+		tn, ok := x.Args[1].(*EStr)
+		if !ok || g.rootFn == nil || g.rootFn.Pkg == nil {
+			g.unsupported("as needs a type name string")
+		}
+		obj, _ := g.rootFn.Pkg.Pkg.Scope().Lookup(tn.S).(*types.TypeName)
+		if obj == nil {
+			g.unsupported("as: no type " + tn.S + " in the package")
+		}
+		if iv, ok := arg(0).(IfaceV); ok {
+			if pv, ok := iv.Conc.(PtrV); ok && pv.Cell == nil && types.Identical(pv.Elem, obj.Type()) {
+				return pv
+			}
+		}
+		v, _ := g.freshVal(types.NewPointer(obj.Type()), "as_"+tn.S)
+		return v
 	case "held":
 		if sel, ok := x.Args[0].(*ESel); ok && ctx.st != nil {
 			if base, ok := g.evalSpec(ctx, sel.X).(PtrV); ok && base.Cell == nil && ctx.st.unpub[base.Ref] {
